@@ -42,7 +42,8 @@ def run(chk: Check) -> int:
         spec = I.random_spec(rng, faults=rng.random() < 0.35, big=not chk.quick)
         col.add(I.safe_run(col, spec, I.RandomSched(rng), f"seed{chk.seed}/{k}"), f"seed{chk.seed}/{k}")
     # --- exhaustive small scope: every schedule (every ordered sub-list of the futures in flight
-    #     at every wait, cancellation at every wait, every futures-were-already-running choice)
+    #     at every wait, cancellation at every wait and -- BlockingRunner -- inside every executor.submit
+    #     call, first and mid-batch ones included, every futures-were-already-running choice)
     exh, truncated = {}, 0
     if chk.quick:
         plans = [(kind, nt, T, T - 1, "all", True) for kind in I.KINDS for nt in (2, 3) for T in (2, 4)]
@@ -78,7 +79,8 @@ def run(chk: Check) -> int:
     return chk.finish(
         rule="real BlockingRunner/AsyncRunner(coroutine and run_in_executor) driven by a controlled scheduler: random specs "
              "(mock/Learner1D/SequenceLearner/AverageLearner, ntasks 1..13 or ncores, goals, fault plans, cancellation) with random "
-             "schedules, plus exhaustive enumeration of all schedules for small task counts; non-trivial = at least one multi- or "
+             "schedules, plus exhaustive enumeration of all schedules for small task counts; cancellation is injected inside a wait "
+             "and (BlockingRunner) inside the k-th executor.submit call, for every k; non-trivial = at least one multi- or "
              "out-of-order completion and (stop with futures outstanding, cancellation, or a result arriving at shutdown); "
              "distinct by (spec, schedule)",
         assumptions=["hand-written model Model/Runner.v tied to adaptive/runner.py by the sampled + small-scope-exhaustive correspondence",
